@@ -19,8 +19,12 @@ and expression normal forms from rkstatic/x_symnf.py):
   R-C11-5  DataView::operator[] is `*(const T*)(ptr + index*stride)` with ptr of byte type; constructor and
            reset store both arguments.
   R-C11-6  extent agreement: the view size equals the owner's size (vector: size(); new T[n]: n), memcpy
-           into the allocation has length n*sizeof(T), a non-null source test guards it, and an owning
-           array constructed / assigned from a source copies the whole source range.
+           into the allocation has length n*sizeof(T), a non-null source test guards it, an owning
+           array constructed / assigned from a source copies the whole source range, and the copy goes into a block
+           allocated on the same path (never into the block that copies of the array and views onto it share).
+Calls to helpers (private / static members, members another member forwards to, delegating constructors, free
+functions) are followed: their paths are spliced into the caller's path summary, so the rules see the same events
+whether a statement is written in place or moved into a helper.
 """
 import re
 
@@ -49,6 +53,21 @@ MUT_KNOWN = {'operator=', 'assign', 'resize', 'reserve', 'shrink_to_fit', 'push_
              'emplace', 'erase', 'pop_back', 'swap', 'reset', 'clear'}
 BYTE_PTR = {'const unsigned char *', 'unsigned char *', 'const char *', 'char *', 'const std::byte *', 'std::byte *',
             'const signed char *', 'signed char *'}
+
+
+def follow_c11(f):
+    """helper calls whose paths are spliced into the caller's summary: members of the wrapper classes and of DataView
+    (private helpers such as syncView / assignCopy / allocate, and public members another member forwards to) and free
+    functions of rkcommon; AbstractArray's own members stay named calls (setPtr is the event the rules are about, the
+    accessors are single-expression functions whose value is substituted anyway)"""
+    rec = f.get('rec')
+    if rec:
+        return rec.startswith(NS) and rec != ABS
+    return f['q'].startswith('rkcommon::')
+
+
+def mk_se(tu):
+    return SymExec(tu, own=lambda f: f['q'].startswith('rkcommon::'), inline_stmt=follow_c11)
 
 
 def norm_type(t):
@@ -161,7 +180,7 @@ class WrapperAnalysis:
         self.ctx = ctx
         self.tu = tu
         self.m = model
-        self.se = SymExec(tu, own=lambda f: f['q'].startswith('rkcommon::'))
+        self.se = mk_se(tu)
         self.memo = {}
         self.prov = {}          # class tmpl -> set of provenance kinds seen
         self.mutators = {}      # record type -> [(fn, how)] public non-constructor functions that dirty the owner
@@ -197,9 +216,18 @@ class WrapperAnalysis:
                         rest = [x for x in b[1:] if x != a]
                         if len(b[1:]) - len(rest) == 1:
                             n = mk_comm('add', rest)
-                            if isinstance(n, tuple) and n[0] == 'param':
-                                return ('range', a, n)
-                            return ('bad-range', a, b)
+                            # [p, p + n): the whole source when n is the caller's size / the container's size();
+                            # a constant offset on the extent (n - 1, n + 1) is a recognisably different range
+                            off = [x for x in (n[1:] if isinstance(n, tuple) and n[0] == 'add' else (n,))
+                                   if isinstance(x, tuple) and x[0] == 'const']
+                            if off or contains(n, a):
+                                return ('bad-range', a, b)
+                            if isinstance(a, tuple) and a[0] == 'call' and last(a[1]) == 'data':
+                                want = ('call', a[1].rsplit('::', 1)[0] + '::size', a[2])
+                                if n == want:
+                                    return ('copy', a[2])
+                                return ('unknown', v)
+                            return ('range', a, n)
                     if a == b or (isinstance(a, tuple) and a[0] == 'add' and b in a[1:]):
                         return ('bad-range', a, b)
                     return ('unknown', v)
@@ -339,6 +367,8 @@ class WrapperAnalysis:
                 if ev.kind == 'baseinit':
                     sd = ev.extra[0] if ev.extra else {}
                     crec = sd.get('rec')
+                    if crec == r['q'] and ev.inlined:
+                        continue        # delegating constructor: its initialisers and statements follow in this path
                     if crec == r['q']:
                         callee = tu.functions.get(sd.get('def') or sd.get('d'))
                         if callee is None or tu.cfg(callee) is None:
@@ -388,6 +418,8 @@ class WrapperAnalysis:
                         self.on_memcpy(f, r, ev, src, tracked, owners, basefields, findings, path)
                         continue
                     callee = tu.callee_fn(ev.node)
+                    if ev.inlined:
+                        continue        # the callee's own events follow in this path
                     if callee is not None and callee.get('rec') == r['q'] and tu.cfg(callee) is not None and ev.place in tracked \
                             and ev.node.get('kind') not in ('CXXConstructExpr', 'CXXTemporaryObjectExpr'):
                         X = ev.place
@@ -660,6 +692,12 @@ class WrapperAnalysis:
                 return
         d = src.get((this, c['owner']))
         elem = self.m.elem(r)
+        if (d is None or d[0] != 'new') and c.get('okind') == 'sp_alloc':
+            # the block was not allocated on this path: it is the one copies of this array (and views onto it) share
+            findings.append(Finding('R-C11-6', 'write-into-shared-allocation', 'memcpy writes into the allocation held by `%s` on a path where no new '
+                                    'block was allocated: copies of this array and views onto it share that block, so assigning to this '
+                                    'array changes their contents' % c['owner'], ev.node))
+            return
         if d is None or d[0] != 'new':
             findings.append(Finding('R-C11-6', 'memcpy-length', 'cannot find the allocation size the memcpy must agree with', ev.node, True))
             return
@@ -697,7 +735,7 @@ def check_wrappers(ctx, tu, tag=''):
     ctx.describe(R3, 'a wrapper whose view pointer aliases storage uniquely owned by a by-value member has no compiler-generated '
                      'copy / move operation')
     ctx.describe(R6, 'extent agreement: view size = owner size (vector size() / new T[n] count), memcpy length = n*sizeof(T) guarded by a '
-                     'non-null source test, owner built from the whole source range')
+                     'non-null source test, owner built from the whole source range, copy only into a block allocated on the same path')
     m = Model(tu)
     if not m.bases or not m.wrappers:
         ctx.broken('R-C11-1: no instantiated subclass of %s found in %s' % (ABS, tu.unit))
@@ -881,7 +919,7 @@ def check_abstract(ctx, tu, tag=''):
     ctx.describe(R4, 'AbstractArray: at(i) dereferences ptr+i only under i < numItems and throws otherwise; operator[], begin, end, data, '
                      'size, cbegin, cend, operator bool, operator T* and setPtr agree on (ptr, numItems)')
     m = Model(tu)
-    se = SymExec(tu, own=lambda f: f['q'].startswith('rkcommon::'))
+    se = mk_se(tu)
     n = 0
     for btype, (r, P, N) in sorted(m.bases.items()):
         this = ('this',)
@@ -974,7 +1012,8 @@ def check_abstract(ctx, tu, tag=''):
                     for e in p.events:
                         if e.kind == 'store' and e.place is not None:
                             stores[e.place] = unver(e.value)
-                    if stores.get(num) != a1:
+                    zero_path = p.cond_of(('eq', ('const', 0), a1)) is True
+                    if stores.get(num) != a1 and not (zero_path and stores.get(num) == ('const', 0)):
                         probs.append(('size-not-stored', 'numItems is set to `%s` instead of the size argument' % (show(stores[num]) if num in stores else 'nothing')))
                     pv = stores.get(ptr)
                     zero = p.cond_of(('eq', ('const', 0), a1))
@@ -1005,7 +1044,7 @@ def check_dataview(ctx, tu, tag=''):
     R5 = 'R-C11-5'
     ctx.describe(R5, 'DataView::operator[](i) is *(const T*)(ptr + i*stride) with ptr of byte type; the constructor and reset store '
                      '(data, stride)')
-    se = SymExec(tu, own=lambda f: f['q'].startswith('rkcommon::'))
+    se = mk_se(tu)
     n = 0
     for r in sorted((r for r in tu.records.values() if r.get('tmpl') == DATAVIEW), key=lambda r: r['type']):
         pf = [f for f in r['fields'] if f['ct'].endswith('*')]
